@@ -56,6 +56,39 @@ PROPS["C17"] = {
                  H("ZZ_C17_Ensure", reach=["after-ensure", "grown"])],
 }
 
+
+PROPS["C03"] = {
+    "title": "no entry served after its deadline",
+    "technique": "SSA symbolic execution of Store.Set/Get/Range/LoadingStore.Get + SMT (z3): set time, TTL, read time and the cached-clock reading are 64-bit symbolic values",
+    "level_text": "Bounded symbolic model checking of the real read paths: for every set time, TTL >= 1 (including overflowing ones), read time and every possible staleness of the cached clock, z3 decides that a hit implies read-time < deadline, that the deadline is exactly set-time+TTL (saturating), and that a later SetWithTTL replaces it. The claim is per call and covers all 64-bit values below 2^62 ns of uptime.",
+    "level_note": "Trusted: go/ssa, the executor's encoding, z3; the clock stub (time moves only where the harness moves it). One key, capacity 10, no concurrent writers (interleavings with maintenance are explored only at the blocking points of the calls). Known finding: stale cached clock > 30 s (known_findings.json).",
+    "assumptions": ["TTL >= 1 ns (negative TTLs are documented as the caller's problem)", "monotonic clock, uptime < 2^62 ns", "cached clock = some earlier reading C <= W of the true clock (arbitrary staleness)"],
+    "outside_bound": ["uptime >= 2^62 ns", "more than one TTL update per key"],
+    "quick": [H("ZZ_C03_Get", reach=["read-done", "hit"], bounds="all 64-bit setAt/ttl/readAt/cachedNow < 2^62"),
+              H("ZZ_C03_Range", reach=["range-done"]),
+              H("ZZ_C03_Reset", reach=["read-done"]),
+              H("ZZ_C03_Loading", reach=["read-done"])],
+}
+
+_c04_step_quick = [{"P0": 5}, {"P0": 62, "P1": 7}, {"P0": 63, "P1": 7}, {"P0": 63, "P1": 63, "P2": 3}, {"P0": 63, "P1": 63, "P2": 31, "P3": 1}, {"P0": 63, "P1": 63, "P2": 31, "P3": 3}]
+PROPS["C04"] = {
+    "title": "expired entries reclaimed within about one tick",
+    "technique": "SSA symbolic execution of TimerWheel.schedule/advance/expire/deschedule + SMT (z3): inductive invariant over symbolic wheel time, deadline and advance target (64-bit)",
+    "level_text": "Inductive bounded model checking of the real timer wheel: base (schedule establishes the invariant), step (any advance of at most G=2^31 ns from any invariant state keeps the invariant or removes the entry, never before its deadline, and always once the advance target is >= deadline + 2^30 ns), re-schedule, deschedule, three entries per slot, and jumps beyond a full rotation of every wheel. All times are 64-bit symbolic below 2^62; the solver enumerates the wheel slots. Inside these bounds the step covers schedule/advance sequences of any length; it is bounded model checking, not a proof.",
+    "level_note": "Trusted: go/ssa, the executor's encoding, z3. Quick tier pins the slot position of the wheel time on each level to representative values (each level's wrap-around included); the thorough tier leaves every position symbolic. Advances between 2^31 ns and a full rotation of all wheels (2^51 ns) are outside the step lemma (covered only by the jump lemma at and above 2^51). Store-level scheduling calls are exercised by the C02/C05 programs.",
+    "assumptions": ["invariant Inv(level, slot, N, E) as pre-state of the step (ZZ_C04_Base and ZZ_C04_Resched show schedule() establishes it)", "0 <= times < 2^62 ns"],
+    "outside_bound": ["single advances longer than 2^31 ns and shorter than 2^51 ns", "more than 3 entries per slot", "deadlines at or behind the wheel time at schedule() (Store filters these for NEW events)"],
+    "quick": [H("ZZ_C04_Base", reach=["placed"], bounds="all N<E<2^62")] +
+             [H("ZZ_C04_Step", params=p, reach=["advanced", "removed", "kept"], bounds="G=2^31, wheel-time slot positions pinned: %s" % p) for p in _c04_step_quick] +
+             [H("ZZ_C04_Resched", reach=["rescheduled"]), H("ZZ_C04_Deschedule", reach=["descheduled"]),
+              H("ZZ_C04_Slot3", params={"P0": 5}, reach=["advanced"]), H("ZZ_C04_Jump", reach=["jumped"], bounds="jump >= 2^51 ns, wheel time = 1234567 ticks + symbolic offset")],
+    "thorough": [H("ZZ_C04_Base", reach=["placed"]),
+                 H("ZZ_C04_Step", reach=["advanced", "removed", "kept"], bounds="G=2^31, all positions symbolic"),
+                 H("ZZ_C04_Resched", reach=["rescheduled"]), H("ZZ_C04_Deschedule", reach=["descheduled"]),
+                 H("ZZ_C04_Slot3", params={"P0": 5}, reach=["advanced"]), H("ZZ_C04_Slot3", params={"P0": 63, "P1": 7}, reach=["advanced"]),
+                 H("ZZ_C04_Jump", reach=["jumped"]), H("ZZ_C04_Jump", params={"K": 4194303}, reach=["jumped"])],
+}
+
 NOT_APPLICABLE = [
     {"property_id": "C09", "reason": "statistical hit-ratio property over 10^4-10^6-step traces; no bounded symbolic execution of a handful of steps decides it (DESIGN.md §4 C09). The mechanisms it names (admission direction, demotion instead of eviction) are asserted structurally under C07."},
 ]
